@@ -17,7 +17,7 @@ func init() {
 		Run:       runC09,
 		Technique: "runtime decode -> encode -> decode -> encode fixpoint monitor on manufactured accepted datagrams",
 		Rule: "datagrams of 1..8 frames manufactured to be accepted: reference encodings (both dialects), the library's own output, all REMB wire mantissa/exponent values, TWCC mutants, and acceptance-preserving mutations (payload octets/bits, surplus words inside the frame, padding shapes, boundary values in inner 16-bit fields, dropped tail words, nudged counts), plus hostile shapes near the 64 KiB / 256 KiB size limits; " +
-			"judged when rtcp.Unmarshal accepts; non-trivial = accepted; distinct by digest of the accepted input octets",
+			"judged when rtcp.Unmarshal accepts (no panic of any Marshal; re-accepted; equal to the list after its Marshal and, modulo XRHeader of known XR blocks, to the list as first decoded; byte fixpoint); non-trivial = accepted; distinct by digest of the accepted input octets",
 		Assumptions: []string{
 			"equality of the two decoded lists is taken after the first list has been marshalled (ExtendedReport.Marshal fills its blocks' headers, as documented)",
 			"TransportLayerCC frames are judged only when the decoded header is consistent with the content (the statement's precondition); an inconsistent one still must not panic",
